@@ -94,6 +94,9 @@ class OsModel:
         if src not in fs.plain:
             raise ExcSig('FileNotFoundError', 'os.rename')
         fs.plain[dst] = fs.plain.pop(src)
+        for h in fs.__dict__.get('open_plain', []):      # an open file object follows its file (inode) through the rename
+            if not h.f.get('closed') and h.f['target'] == src:
+                h.f['target'] = dst
         fs.op('rename', src, dst)
 
     # low-level descriptor API (a refactor of write_head may use it): flags decide whether an existing file is truncated
@@ -148,6 +151,13 @@ class OsModel:
         raise Unsupported('os.listdir: scan_logfiles is used by contract')
 
 
+class FcntlModel:
+    """advisory file locks (fcntl.flock / lockf): no effect on what the file system holds; assumed never to fail"""
+    getattr = staticmethod(lambda ex, o, name: name if name.startswith('LOCK_') else NOTHANDLED)
+    m_flock = staticmethod(lambda ex, o, *a: None)
+    m_lockf = staticmethod(lambda ex, o, *a: None)
+
+
 class OsPathModel:
     @staticmethod
     def m_basename(ex, o, p):
@@ -189,19 +199,36 @@ class WFile:
             tgt.f.setdefault('records', []).append(data)
             o.f['fs'].op('write', tgt, data)
         else:
-            fs = o.f['fs']
-            fs.plain[tgt] = (fs.plain.get(tgt) or '') + data if isinstance(data, str) else data
-            fs.op('write', tgt)
+            # a file object opened with open(path, 'w') is BUFFERED: what is written reaches the file when the object is flushed or closed (a short record never fills
+            # the buffer earlier) - the worst case for a crash between write() and close(), and the one CPython exhibits for short writes
+            o.f.setdefault('buf', []).append(data)
+            o.f['fs'].op('write-buffered', tgt)
         return n
 
     @staticmethod
+    def _commit(ex, o):
+        buf = o.f.get('buf') or []
+        if buf and not isinstance(o.f['target'], Obj):
+            fs, tgt = o.f['fs'], o.f['target']
+            for data in buf:
+                if tgt in fs.plain:         # (an unlinked file just loses the data)
+                    fs.plain[tgt] = (fs.plain.get(tgt) or '') + data if isinstance(data, str) else data
+            o.f['buf'] = []
+            fs.op('flush', tgt)
+
+    @staticmethod
     def m_close(ex, o):
+        WFile._commit(ex, o)
         o.f['closed'] = True
         o.f['fs'].op('close', o.f['target'])
 
     @staticmethod
     def m_flush(ex, o):
-        pass
+        WFile._commit(ex, o)
+
+    @staticmethod
+    def m_fileno(ex, o):
+        return o
 
     m___enter__ = staticmethod(lambda ex, o: o)
 
@@ -334,7 +361,9 @@ def open_(fs):
         if 'w' in mode:
             fs.plain[path] = ''
             fs.op('create', path)
-            return Obj('wfile', target=path, fs=fs, closed=False)
+            h = Obj('wfile', target=path, fs=fs, closed=False)
+            fs.__dict__.setdefault('open_plain', []).append(h)
+            return h
         if path not in fs.plain:
             raise ExcSig('FileNotFoundError', 'open')
         return Obj('rfile', target=path, fs=fs, pos=0, closed=False, content=Obj('textcontent', v=fs.plain[path]))
@@ -413,6 +442,7 @@ def setup(ex, clock=None):
     node = m.find('RollLog')
     ex.classes['RollLog'] = ClassInfo(node, ROLL, ())
     now = clock or (lambda: fresh('now', z3.RealSort()))
-    g.update(os=Obj('os', fs=fs), open=open_(fs), RollLogFile=Native(lambda ex_, *a: RollLogFile(*a), 'RollLogFile'), RollLog=ClassRef('RollLog'),
+    ex.models['fcntlmod'] = FcntlModel
+    g.update(fcntl=Obj('fcntlmod'), os=Obj('os', fs=fs), open=open_(fs), RollLogFile=Native(lambda ex_, *a: RollLogFile(*a), 'RollLogFile'), RollLog=ClassRef('RollLog'),
              datetime=Obj('dtcls', clock=now), time=Native(lambda ex_: now(), 'time'), logger=None)
     return fs
